@@ -45,8 +45,8 @@ fn get_server_values_impl(socket: &mut UdpSocket) -> GDResult<HashMap<String, St
         let data = socket.receive(None)?;
         let mut bufferer = Buffer::<LittleEndian>::new(&data);
 
-        let mut as_string = bufferer.read_string::<Utf8Decoder>(None)?;
-        as_string.remove(0);
+        let as_string = bufferer.read_string::<Utf8Decoder>(None)?;
+        let as_string = as_string.strip_prefix('\\').unwrap_or(&as_string);
 
         let splited: Vec<String> = as_string.split('\\').map(str::to_string).collect();
 
